@@ -157,8 +157,7 @@ ResolversOf(op, kind) ==
 (*   "resolve"   the user resolvers behind the field are invoked                                    *)
 (*   "null"      the field is answered with null, nothing is invoked                                *)
 (*   "skip"      the field is left out of the response                                              *)
-(*   "refuse"    the executor raises a field error (static executors: the whole response fails,     *)
-(*               later fields are not started)                                                      *)
+(*   "refuse"    the executor answers the field with an error response (static subscriptions)       *)
 (*   "invalid"   the request is rejected by validation before execution                             *)
 (* Deviations of today's code (named switches, see known_findings/C19.json):                        *)
 (*   DevStaticServiceIgnoresDisabled  QueryRoot::resolve_field serves _service without looking at   *)
@@ -166,28 +165,35 @@ ResolversOf(op, kind) ==
 (*   DevDynSubscriptionIgnoresOnly    dynamic collect_streams never looks at the modes              *)
 (*   DevDynEntitiesIgnoresOnly        dynamic collect_fields runs the entity resolver in the        *)
 (*                                    "metadata allowed" branch, before the IntrospectionOnly check *)
-Devs == {"DevStaticServiceIgnoresDisabled", "DevDynSubscriptionIgnoresOnly", "DevDynEntitiesIgnoresOnly"}
+(*   DevStaticEmptyMutationTypename   Schema::execute_once substitutes the EmptyMutation root under *)
+(*                                    IntrospectionOnly, so mutation { __typename } answers         *)
+(*                                    "EmptyMutation", a type that is not in the schema             *)
+Devs == {"DevStaticServiceIgnoresDisabled", "DevDynSubscriptionIgnoresOnly", "DevDynEntitiesIgnoresOnly", "DevStaticEmptyMutationTypename"}
 
-\* validation: the introspection fields are registered only when the schema-level mode is not Disabled
-\* (Registry::create_introspection_types); query-only fields do not exist on the other roots.
+\* validation: query-only fields do not exist on the other roots; a dynamic schema registers the
+\* introspection fields only when its mode is not Disabled (Registry::create_introspection_types in
+\* dynamic SchemaBuilder::finish; the static builder registers them before the mode is set).
 InvalidField(x, kind) ==
   \/ kind = "unknown"
   \/ kind \in QueryOnlyKinds /\ x.op # "query"
-  \/ kind \in {"__schema", "__type"} /\ x.s = "Disabled"
+  \/ kind \in {"__schema", "__type"} /\ x.s = "Disabled" /\ x.flavour = "dynamic"
 
 StaticOutcome(x, kind, dev) ==
   LET meta == MetadataAllowed(x.s, x.r)
       res  == ResolversAllowed(x.s, x.r)
   IN IF InvalidField(x, kind) THEN "invalid"
-     ELSE IF kind = "__typename" THEN (IF x.op = "subscription" THEN "refuse" ELSE "typename")   \* container.rs Fields::add_set
-     ELSE IF x.op = "query" THEN                                                                  \* QueryRoot::resolve_field
+     ELSE IF x.op = "subscription" THEN                \* schema.rs execute_stream: EmptySubscription substituted
+            IF res /\ kind \in {"ordinary", "nested"} THEN "resolve" ELSE "refuse"
+     ELSE IF kind = "__typename" THEN                  \* container.rs Fields::add_set: the name of the root *Rust* type
+            IF x.op = "mutation" /\ ~res /\ "DevStaticEmptyMutationTypename" \in dev THEN "typenameEmptyMutation" ELSE "typename"
+     ELSE IF x.op = "query" THEN                       \* QueryRoot::resolve_field; Ok(None) becomes null
             IF meta /\ kind \in {"__schema", "__type"} THEN "meta"
-            ELSE IF ~res THEN "refuse"
+            ELSE IF ~res THEN "null"
             ELSE IF kind = "_entities" THEN "resolve"
-            ELSE IF kind = "_service" THEN (IF meta \/ "DevStaticServiceIgnoresDisabled" \in dev THEN "meta" ELSE "refuse")
+            ELSE IF kind = "_service" THEN (IF meta \/ "DevStaticServiceIgnoresDisabled" \in dev THEN "meta" ELSE "null")
             ELSE IF kind \in {"ordinary", "nested"} THEN "resolve"
-            ELSE "refuse"
-     ELSE IF ~res THEN "refuse"                       \* schema.rs: EmptyMutation / EmptySubscription substituted
+            ELSE "null"
+     ELSE IF ~res THEN "null"                          \* schema.rs execute_once: EmptyMutation substituted
      ELSE "resolve"
 
 DynamicOutcome(x, kind, dev) ==
@@ -216,19 +222,11 @@ MayInvokeO(x, o) == UNION {ResolversOf(x.op, o[i].kind) : i \in {j \in 1..Len(o)
 ModelMayServe(x, doc, dev) == MayServeO(Outcomes(x, doc, dev))
 ModelMayInvoke(x, doc, dev) == MayInvokeO(x, Outcomes(x, doc, dev))
 
-\* Exact prediction (drift run): nothing happens when validation rejects; the static executors stop at the
-\* first refused field (try_join_all / the serial mutation loop), earlier fields have already run.
+\* Exact prediction (drift run): nothing happens when validation rejects the request; otherwise every root
+\* field is treated on its own (a refused static field is answered with null, Ok(None) in resolve_field).
 RejectedO(o) == \E i \in 1..Len(o) : o[i].out = "invalid"
-FirstRefuse(o) == IF \E i \in 1..Len(o) : o[i].out = "refuse" THEN CHOOSE i \in 1..Len(o) : o[i].out = "refuse" /\ \A j \in 1..(i - 1) : o[j].out # "refuse" ELSE Len(o) + 1
-ModelInvokes(x, doc, dev) ==
-  LET o == Outcomes(x, doc, dev) IN
-  IF RejectedO(o) THEN {}
-  ELSE LET stop == IF x.op = "subscription" THEN Len(o) + 1 ELSE FirstRefuse(o)     \* subscription fields are independent streams
-       IN UNION {ResolversOf(x.op, o[i].kind) : i \in {j \in 1..Len(o) : j < stop /\ o[j].out = "resolve"}}
-ModelServes(x, doc, dev) ==
-  LET o == Outcomes(x, doc, dev) IN
-  IF RejectedO(o) \/ FirstRefuse(o) <= Len(o) THEN {}
-  ELSE MayServeO(o)
+ModelInvokes(x, doc, dev) == LET o == Outcomes(x, doc, dev) IN IF RejectedO(o) THEN {} ELSE MayInvokeO(x, o)
+ModelServes(x, doc, dev) == LET o == Outcomes(x, doc, dev) IN IF RejectedO(o) THEN {} ELSE MayServeO(o)
 
 ----------------------------------------------------------------------------
 (* The property over model outcomes (mode M) *)
@@ -250,6 +248,8 @@ Trigger(d, x, doc) ==
     [] d = "DevDynEntitiesIgnoresOnly" ->
          x.flavour = "dynamic" /\ x.op = "query" /\ HasKindExec(x, doc, "_entities")
          /\ ~ResolversAllowed(x.s, x.r) /\ MetadataAllowed(x.s, x.r)
+    [] d = "DevStaticEmptyMutationTypename" ->
+         x.flavour = "static" /\ x.op = "mutation" /\ HasKindExec(x, doc, "__typename") /\ ~ResolversAllowed(x.s, x.r)
 
 \* mode M invariants (evaluated on every case of the space)
 \* the table itself: both predicates are symmetric; Disabled / IntrospectionOnly in either place is enough;
